@@ -22,7 +22,9 @@ RULE = (
     "from its registration), same contents; after each non-report message m follow exactly one eliot:destination_failure "
     "per destination that raised on m, in registration order, carrying the module-qualified class, its text and a "
     "rendering that names m; failures on reports produce no report; number of non-report messages equals the program's "
-    "message count. Non-trivial: >= 2 destinations of which >= 1 fails on a proper non-empty subset of its calls incl. at "
+    "message count. Facets concurrent(-enum): 2-3 threads logging through one Destinations under line-level schedules "
+    "(generated plans and every single preemption): every destination is offered every message exactly once and every "
+    "failure on a non-report message is reported exactly once. Non-trivial: >= 2 destinations of which >= 1 fails on a proper non-empty subset of its calls incl. at "
     "least one failure on a report. Distinct = canonical JSON of the case."
 )
 ASSUMPTIONS = [
@@ -222,4 +224,105 @@ def strategy():
     )
 
 
-FACETS = [Facet("fanout", strategy, check, classify, quick=2000, thorough=50000)]
+# -------------------------------------------------------------- concurrent
+
+
+def check_concurrent(case):
+    """Two or three threads log through one Destinations under line-level schedules."""
+    import threading
+    from .. import sched
+    from ..core import HarnessError
+    from eliot import _output, log_message
+    from eliot._output import Destinations
+
+    saved = Logger._destinations
+    with sched.cooperative_locks(_output):
+        fresh = Destinations()
+    Logger._destinations = fresh
+    dests = [RecordingDest(i, d["mask"], d["exc"], d.get("every")) for i, d in enumerate(case["dests"])]
+    healthy = RecordingDest(99, [], 0, None)
+    fresh.add(*(dests + [healthy]))
+    try:
+        def worker(tid, count):
+            def run():
+                for k in range(count):
+                    log_message(message_type="c08:m", who="t%d.%d" % (tid, k))
+
+            return run
+
+        s = sched.Scheduler(("eliot/_output.py",), case["plan"])
+        s.run([worker(i, c) for i, c in enumerate(case["threads"])])
+    finally:
+        Logger._destinations = saved
+    for wid, e in s.errors.items():
+        if isinstance(e, HarnessError):
+            raise e
+        raise Violation("thread-raised", "thread %d raised %r" % (wid, e))
+    require(not any(d.runaway for d in dests), "report-on-report", "a failure while delivering a report was itself reported")
+    want = sorted("t%d.%d" % (i, k) for i, c in enumerate(case["threads"]) for k in range(c))
+    for d in dests + [healthy]:
+        got = sorted(m["who"] for m in d.offered if m.get("message_type") == "c08:m")
+        require(got == want, "offered-once", lambda: "destination %d was offered %r, logged %r" % (d.index, got, want))
+    # every failure on a non-report message is reported exactly once, naming the message
+    reports = [m for m in healthy.offered if m.get("message_type") == REPORT]
+    failures = []
+    for d in dests:
+        for m, e in zip(d.offered, d.raised):
+            if e is not None and m.get("message_type") != REPORT:
+                failures.append((d.index, m, e))
+    by_msg = {}
+    for (di, m, e) in failures:
+        by_msg.setdefault(m["task_uuid"], []).append((di, m, e))
+    for uuid, fl in by_msg.items():
+        mine = [r for r in reports if repr(uuid) in str(r.get("message"))]
+        require(
+            sorted(r.get("reason") for r in mine) == sorted(P.safe_str(e) for _, _, e in fl),
+            "failure-report-count",
+            lambda: "message %s failed at destinations %r but was reported %d times (reasons %r)" % (fl[0][1].get("who"), [d for d, _, _ in fl], len(mine), [r.get("reason") for r in mine]),
+        )
+    require(len(reports) == len(failures), "report-count", lambda: "%d failures but %d reports" % (len(failures), len(reports)))
+    inside = s.switched_inside(("send", "write"))
+    return {"failures": len(failures), "switch_inside": len(inside), "switches": len(s.switches)}
+
+
+def classify_concurrent(case, info):
+    labels = ["threads=%d" % len(case["threads"]), "failures=%d" % min(info["failures"], 4), "switches=%d" % min(info["switches"], 6)]
+    if info["switch_inside"]:
+        labels.append("preempted-inside-send")
+    return info["switch_inside"] >= 1 and info["failures"] >= 1, labels
+
+
+def concurrent_strategy():
+    from .. import sched
+
+    dest = st.builds(
+        lambda mask, exc, every: {"mask": sorted(set(mask)), "exc": exc, "every": every},
+        st.lists(st.integers(0, 6), max_size=4),
+        st.integers(0, len(DEST_EXC) - 1),
+        st.sampled_from([None, None, 1, 2]),
+    )
+    return st.builds(
+        lambda dests, plan, threads: {"dests": dests, "plan": plan, "threads": threads},
+        st.lists(dest, min_size=1, max_size=2),
+        sched.plans(max_segments=10, max_steps=30, workers=3),
+        st.lists(st.integers(1, 2), min_size=2, max_size=3),
+    )
+
+
+def concurrent_enum_runner(mod, facet, tier, seed, shard, nshards, stats):
+    from ..core import enumerate_cases
+    from .. import sched
+
+    cases = []
+    for dests in ([{"mask": [], "exc": 0, "every": 1}], [{"mask": [0, 1], "exc": 1, "every": None}], [{"mask": [1], "exc": 0, "every": None}, {"mask": [0], "exc": 0, "every": None}]):
+        for plan in sched.single_preemption_plans(2, 70):
+            cases.append({"dests": dests, "plan": plan, "threads": [1, 1]})
+    stats.extra["enumerated_plans"] = len(cases)
+    enumerate_cases(mod, facet, cases, shard, nshards, stats, exhaustive=True)
+
+
+FACETS = [
+    Facet("fanout", strategy, check, classify, quick=2000, thorough=50000),
+    Facet("concurrent", concurrent_strategy, check_concurrent, classify_concurrent, quick=200, thorough=10000),
+    Facet("concurrent-enum", None, check_concurrent, classify_concurrent, quick=1, thorough=1, runner=concurrent_enum_runner),
+]
